@@ -8,9 +8,9 @@ BUILD = os.path.join(_k.BUILD, "C13")
 
 META = {
     "functions_encoded": ["MIR of rlib_sieve::Sieve::{new,min_prime,is_prime,primes,factorize} and PrimeIter::next"],
-    "bounds": {"quick": "every limit N in 0..=64: Sieve::new(N) executed concretely on the MIR; for every 2<=n<=N (symbolic) the table entry divides n, is >= 2 and no 2<=d<entry (symbolic) divides n; is_prime(n) <=> entry = n; is_prime(0), is_prime(1) false; prime list = the primes <= N; factorize(n) for every 1<=n<=N (symbolic): increasing primes whose powers multiply to n",
-               "thorough": "tables for every N in 0..=300 (covers prime squares up to 17^2), factorisation at every N <= 100 and at N in {121,128,169,200,243,256,289,300}"},
-    "outside_claim": ["limits above 300 (the 10^6 / 10^7 comparisons of the quantifier are concrete runs, not solver work): e.g. an exponent field that overflows at 2^16 is invisible",
+    "bounds": {"quick": "tables (smallest prime factor, primality, prime list) additionally at N in {127,128,256,289,300,1000}; every limit N in 0..=64: Sieve::new(N) executed concretely on the MIR; for every 2<=n<=N (symbolic) the table entry divides n, is >= 2 and no 2<=d<entry (symbolic) divides n; is_prime(n) <=> entry = n; is_prime(0), is_prime(1) false; prime list = the primes <= N; factorize(n) for every 1<=n<=N (symbolic): increasing primes whose powers multiply to n",
+               "thorough": "tables for every N in 0..=300 (covers prime squares up to 17^2) and at N in {361,512,529,1000,1024,2048,2209,3000,4096}; factorisation at every N <= 100 and at N in {121,128,169,200,243,256,289,300}"},
+    "outside_claim": ["limits other than those listed (tables up to 4096; factorisation up to 300); the 10^6 / 10^7 comparisons of the quantifier are concrete runs, not solver work: e.g. an exponent field that overflows at 2^16 is invisible",
                       "the solver's share is the quantification over n and d, not over N (N is enumerated: it bounds every loop and every Vec length)"],
     "stubs_and_assumes": ["Vec/Range models (from_elem, push, len, index with an if-then-else chain for symbolic indices, Range::next)", "the prime list is a concrete table once N is fixed and is compared with trial division"],
     "assumptions": ["rustc's MIR dump is the semantics of the compiled code", "mirsym's interpreter and models are faithful (native replay of every counterexample)"],
@@ -19,9 +19,9 @@ META = {
 
 def limits(tier):
     if tier == "quick":
-        return [(N, True) for N in range(0, 65)]
+        return [(N, True) for N in range(0, 65)] + [(N, False) for N in (127, 128, 256, 289, 300, 1000)]
     fact = set(range(0, 101)) | {121, 128, 169, 200, 243, 256, 289, 300}
-    return [(N, N in fact) for N in range(0, 301)]
+    return [(N, N in fact) for N in range(0, 301)] + [(N, False) for N in (361, 512, 529, 1000, 1024, 2048, 2209, 3000, 4096)]
 
 
 def mir_path():
